@@ -49,11 +49,11 @@ func (q *query) sql() string {
 	}
 	s := "SELECT " + strings.Join(parts, ", ") + " FROM stream"
 	if q.where != nil {
-		s += " WHERE " + render(0, q.where)
+		s += " WHERE " + c06Render(0, q.where)
 	}
 	return s
 }
-func (q *query) enc() string {
+func (q *query) c06_enc() string {
 	s := fmt.Sprintf("%d", len(q.items))
 	for _, it := range q.items {
 		switch it.kind {
@@ -68,7 +68,7 @@ func (q *query) enc() string {
 		}
 	}
 	if q.where != nil {
-		s += " w1 " + enc(q.where)
+		s += " w1 " + c06_enc(q.where)
 	} else {
 		s += " w0"
 	}
@@ -193,11 +193,11 @@ func runC05(tier string, seed uint64, o *Out) error {
 			}
 			s2.Stop()
 			if o1 != o2 || o1 != o3 {
-				o.Line("C05 HD %s # %s # %s | %s | %s", hx(sql), row.enc(), o1, o2, o3)
+				o.Line("C05 HD %s # %s # %s | %s | %s", hx(sql), row.c06_enc(), o1, o2, o3)
 				o.Count("history/DEPENDENT")
 				continue
 			}
-			o.Line("C05 Q %s # %s # %s # %s", hx(sql), q.enc(), row.enc(), o1)
+			o.Line("C05 Q %s # %s # %s # %s", hx(sql), q.c06_enc(), row.c06_enc(), o1)
 			o.Count("rows/sync")
 			rows = append(rows, row)
 			syncRes = append(syncRes, o1)
